@@ -269,9 +269,12 @@ def evolve_agent(ag, seed=0):
 
 
 def _ev(obj, kernel):
+    """kernel.evolved: False = fresh object; True = the object as the last mutation left it; "cloned" = a clone taken right
+    after the last mutation (what tournament selection hands to the next generation)."""
     if not kernel.evolved:
         return obj
-    return evolve_agent(obj, kernel.seed) if hasattr(obj, "learn") else evolve_actor(obj)
+    obj = evolve_agent(obj, kernel.seed) if hasattr(obj, "learn") else evolve_actor(obj)
+    return obj.clone() if kernel.evolved == "cloned" else obj
 
 
 def _net(squash):
@@ -284,19 +287,31 @@ def _net(squash):
 INFO = {}
 
 
-def make_ppo(key, squash=False, bounds="unit", seed=0, batch_size=64, std_init=0.0):
+def make_ppo(key, squash=False, bounds="unit", seed=0, batch_size=64, std_init=0.0, explicit=False):
     """PPO with share_encoders=True cannot be constructed under Python 3.12 (DESIGN.md 6-P): fall back."""
     from agilerl.algorithms.ppo import PPO
 
     seed_all(seed)
-    kw = dict(net_config=_net(squash), batch_size=batch_size, update_epochs=1, lr=1e-3)
+    # PPO only accepts action_std_init >= 0: such values go through the constructor, others are written into the parameter
+    ctor_std = float(std_init) if std_init >= 0 else 0.0
+    kw = dict(batch_size=batch_size, update_epochs=1, lr=1e-3, action_std_init=ctor_std)
+    sp = space_of(key, squash, bounds)
+    if explicit:
+        # the policy / value networks handed over ready-made (PPO deep-copies them)
+        from agilerl.networks.actors import StochasticActor
+        from agilerl.networks.value_networks import ValueNetwork
+        kw["actor_network"] = StochasticActor(OBS_SPACE, sp, squash_output=squash, action_std_init=ctor_std, **_net(False))
+        kw["critic_network"] = ValueNetwork(OBS_SPACE, **_net(False))
+    else:
+        kw["net_config"] = _net(squash)
     try:
-        ag = PPO(OBS_SPACE, space_of(key, squash, bounds), share_encoders=True, **kw)
+        ag = PPO(OBS_SPACE, sp, share_encoders=True, **kw)
         INFO["ppo_share_encoders"] = True
     except AssertionError:
-        ag = PPO(OBS_SPACE, space_of(key, squash, bounds), share_encoders=False, **kw)
+        ag = PPO(OBS_SPACE, sp, share_encoders=False, **kw)
         INFO["ppo_share_encoders"] = False
-    set_log_std([ag.actor], std_init)
+    if std_init < 0:
+        set_log_std([ag.actor], std_init)
     return ag
 
 
@@ -307,25 +322,55 @@ def set_log_std(actors, value):
             ac.head_net.log_std.data.fill_(float(value))
 
 
-def make_ippo(key, squash=False, bounds="unit", seed=0, batch_size=64, std_init=0.0):
+# heterogeneous population: the two policy groups have different action spaces and their members are interleaved in agent_ids
+HETERO_IDS = ["agent_0", "other_0", "agent_1"]
+
+
+def other_space(key):
+    """Action space of the second policy group of a heterogeneous IPPO population (another family than the one under test)."""
+    return spaces.Discrete(3) if key[0] in ("bits", "box") else spaces.MultiBinary(2)
+
+
+def other_expect(key):
+    """(log-probability, entropy) of any action of the second group when its head outputs zero logits (uniform)."""
+    return (math.log(1.0 / 3.0), math.log(3.0)) if key[0] in ("bits", "box") else (2.0 * math.log(0.5), 2.0 * LN2)
+
+
+def ippo_ids(hetero):
+    return list(HETERO_IDS if hetero else IPPO_IDS)
+
+
+def case_ids(hetero):
+    """The agents whose policy is the one under test."""
+    return ["agent_0", "agent_1"] if hetero else list(IPPO_IDS)
+
+
+def make_ippo(key, squash=False, bounds="unit", seed=0, batch_size=64, std_init=0.0, hetero=False, explicit=False):
     from agilerl.algorithms.ippo import IPPO
+    from agilerl.networks.actors import StochasticActor
+    from agilerl.networks.value_networks import ValueNetwork
 
     seed_all(seed)
     sp = space_of(key, squash, bounds)
-    kw = dict(agent_ids=list(IPPO_IDS), batch_size=batch_size, update_epochs=1, lr=1e-3)
-    if not squash:
-        ag = IPPO([OBS_SPACE] * 3, [sp] * 3, net_config=_net(False), **kw)
-        set_log_std(ag.actors, std_init)
+    ids = ippo_ids(hetero)
+    sps = [sp if a in case_ids(hetero) else other_space(key) for a in ids]
+    # PPO / IPPO only accept action_std_init >= 0: such values go through the constructor, others are written into the parameter
+    ctor_std = float(std_init) if std_init >= 0 else 0.0
+    kw = dict(agent_ids=ids, batch_size=batch_size, update_epochs=1, lr=1e-3, action_std_init=ctor_std)
+    if not squash and not explicit:
+        ag = IPPO([OBS_SPACE] * 3, sps, net_config=_net(False), **kw)
+        if std_init < 0:
+            set_log_std(ag.actors, std_init)
         return ag
     # IPPO(net_config={"squash_output": True}) hands the flag to ValueNetwork as well (TypeError): squashed policies
-    # can only be given as explicit networks
-    from agilerl.networks.actors import StochasticActor
-    from agilerl.networks.value_networks import ValueNetwork
-    actors = [StochasticActor(OBS_SPACE, sp, squash_output=True, **_net(False)) for _ in range(2)]
+    # can only be given as explicit networks (one per policy group, in the order of first appearance in agent_ids)
+    group_sps = [sp, other_space(key)] if hetero else [sp, sp]
+    actors = [StochasticActor(OBS_SPACE, g, squash_output=(squash and g is sp), action_std_init=ctor_std, **_net(False)) for g in group_sps]
     critics = [ValueNetwork(OBS_SPACE, **_net(False)) for _ in range(2)]
-    ag = IPPO([OBS_SPACE] * 3, [sp] * 3, actor_networks=actors, critic_networks=critics, **kw)
-    assert all(a.squash_output and a.head_net.squash_output for a in ag.actors), "squash_output lost when IPPO copied the networks"
-    set_log_std(ag.actors, std_init)
+    ag = IPPO([OBS_SPACE] * 3, sps, actor_networks=actors, critic_networks=critics, **kw)
+    # (if IPPO's copy of the networks lost squash_output the kernels report un-squashed samples: Support / TanhCorrection)
+    if std_init < 0:
+        set_log_std(ag.actors, std_init)
     return ag
 
 
@@ -443,15 +488,48 @@ def _batches(rows, sizes, start=0):
         k += 1
 
 
-def _pad3(part):
-    """Pad a batch (cyclically) to a multiple of the three IPPO agents."""
+def _padn(part, n):
+    """Pad a batch (cyclically) to a multiple of the n agents that carry cases."""
     part = list(part)
-    n = len(part)
+    m = len(part)
     i = 0
-    while len(part) % 3:
-        part.append(part[i % n])
+    while len(part) % n:
+        part.append(part[i % m])
         i += 1
     return part
+
+
+def _pad3(part):
+    return _padn(part, 3)
+
+
+def _keyed(ids, k, f):
+    """{agent id: f(agent id)} with the keys inserted in the k-th rotation of ids (odd k: reversed as well): the order in which a
+    caller fills its dictionaries is not part of the interface."""
+    r = k % len(ids)
+    order = list(ids[r:]) + list(ids[:r])
+    if k % 2:
+        order.reverse()
+    return {a: f(a) for a in order}
+
+
+def check_other_rows(key, a, lp, ent):
+    """Rows of the second policy group of a heterogeneous IPPO population (head stubbed with zero logits = uniform)."""
+    bad = []
+    sp = other_space(key)
+    want_lp, want_h = other_expect(key)
+    a = np.asarray(a)
+    for e in range(a.shape[0]):
+        row = a[e].reshape(-1)
+        ok = (row.shape[0] == 1 and 0 <= int(row[0]) < sp.n) if isinstance(sp, spaces.Discrete) else \
+             (row.shape[0] == sp.n and all(int(x) in (0, 1) for x in row))
+        if not ok:
+            bad.append(("Support", f"second group ({sp}): action {a[e].tolist()} is not an element of its action space"))
+        elif not rel_close(float(lp[e]), want_lp, TOL_P, TOL_P):
+            bad.append(("LogProb", f"second group ({sp}, uniform policy): log_prob {float(lp[e]):.9g}, expected {want_lp:.9g}"))
+        elif not rel_close(float(ent[e]), want_h, TOL_H, TOL_H):
+            bad.append(("Entropy", f"second group ({sp}, uniform policy): entropy {float(ent[e]):.9g}, expected {want_h:.9g}"))
+    return bad[:1]
 
 
 def _act_tensor(key, acts):
@@ -465,12 +543,38 @@ def _act_tensor(key, acts):
     return torch.tensor(acts, dtype=torch.float32)
 
 
-def _mask_arg(rows, k, width):
-    """Mask argument for a physical batch: None / all-ones array when no row is masked."""
-    m = np.array([c["m"] for c, _ in rows], dtype=np.int64).reshape(len(rows), width)
-    if m.all():
-        return None if k % 2 == 0 else m
+MASK_KINDS = ["int64", "bool", "object", "torch-bool", "float32", "int8", "torch-int"]
+
+
+def mask_as(m, kind):
+    """The same 0/1 mask in the containers / dtypes in which callers legitimately hand it over (ArrayOrTensor): integer, boolean
+    and float arrays, torch tensors, and the object array of per-environment masks that gymnasium's vector environments put
+    into `info["action_mask"]`."""
+    m = np.asarray(m, dtype=np.int64)
+    if kind == "bool":
+        return m.astype(bool)
+    if kind == "float32":
+        return m.astype(np.float32)
+    if kind == "int8":
+        return m.astype(np.int8)
+    if kind == "torch-bool":
+        return torch.as_tensor(m.astype(bool))
+    if kind == "torch-int":
+        return torch.as_tensor(m)
+    if kind == "object" and m.ndim == 2:
+        o = np.empty(m.shape[0], dtype=object)
+        for i in range(m.shape[0]):
+            o[i] = m[i].astype(np.int8)
+        return o
     return m
+
+
+def _mask_arg(rows, k, width):
+    """Mask argument for a physical batch: None / all-ones array when no row is masked; the container / dtype varies with k."""
+    m = np.array([c["m"] for c, _ in rows], dtype=np.int64).reshape(len(rows), width)
+    if m.all() and k % 2 == 0:
+        return None
+    return mask_as(m, MASK_KINDS[k % len(MASK_KINDS)])
 
 
 class DiscKernel:
@@ -485,6 +589,8 @@ class DiscKernel:
         self.stats = {"actor_calls": 0, "ppo_calls": 0, "ippo_calls": 0, "rows": 0}
 
     def fail(self, level, path, bad, c, **extra):
+        if self.evolved:
+            extra["evolve"] = "cloned" if self.evolved == "cloned" else "mutated"
         for clause, detail in bad:
             self.fails.append(Failure(level, self.shape, path, clause, detail, c, extra))
 
@@ -584,61 +690,91 @@ class DiscKernel:
         self._learn_path("PPO", ag, [ag.actor], rows)
 
     # ------------------------------------------------------------------ IPPO
-    def run_ippo(self, cases, stride=1, off=0):
-        ag = _ev(make_ippo(self.key, seed=self.seed), self)
+    def run_ippo(self, cases, stride=1, off=0, hetero=False):
+        """hetero: a second policy group with another action space, its member interleaved in agent_ids; the dictionaries handed
+        to get_action / learn come in varying key orders either way."""
+        ag = _ev(make_ippo(self.key, seed=self.seed, hetero=hetero), self)
+        level = "IPPO-hetero" if hetero else "IPPO"
+        IDS, CIDS = ippo_ids(hetero), case_ids(hetero)
+        n = len(CIDS)
         heads = []
         for ac in ag.actors:
             h = Head()
             instrument(ac, h)
             heads.append(h)
+        case_heads = heads[:1] if hetero else heads
+        if hetero:
+            heads[1].table = torch.zeros((64, spaces.flatdim(other_space(self.key))), dtype=torch.float32)
         sample_rows = [(c, None) for j, c in enumerate(cases) if j % stride == off or all_ones(c)]
         seed_all(self.seed + 13)
-        for k, part in enumerate(_batches(sample_rows, [3, 6, 12, 24], self.seed)):
-            part = _pad3(part)
-            E = len(part) // 3
+        for k, part in enumerate(_batches(sample_rows, [n, 2 * n, 4 * n, 8 * n], self.seed)):
+            part = _padn(part, n)
+            E = len(part) // n
             training = (k % 3 != 2)
             ag.set_training_mode(training)
             tab = self._table(part, k)
-            for h in heads:
+            for h in case_heads:
                 h.table = tab
-            ids = np.arange(len(part)).reshape(3, E)
-            obs = {aid: obs_of(ids[j]) for j, aid in enumerate(IPPO_IDS)}
-            m = np.array([c["m"] for c, _ in part], dtype=np.int64).reshape(3, E, self.width)
+            ids = np.arange(len(part)).reshape(n, E)
+            row_of = {aid: ids[j] for j, aid in enumerate(CIDS)}
+            # one environment: every other time as a non-vectorised environment hands it over (no batch axis)
+            single = E == 1 and (k // 4) % 2 == 0
+            obs = _keyed(IDS, k, lambda aid: (obs_of(row_of[aid]) if aid in row_of else obs_of(range(E)))[0 if single else slice(None)])
+            m = np.array([c["m"] for c, _ in part], dtype=np.int64).reshape(n, E, self.width)
             infos = None
             if not m.all() or k % 2 == 1:
-                infos = {aid: {"action_mask": (m[j] if k % 4 < 2 else m[j].tolist())} for j, aid in enumerate(IPPO_IDS)}
+                # info dictionaries come from the environment: numpy arrays of any 0/1 dtype or lists
+                kind = ["int64", "bool", "int8", "float32"][(k // 2) % 4]
+                mk = {aid: (m[j].tolist() if k % 4 >= 2 else mask_as(m[j], kind)) for j, aid in enumerate(CIDS)}
+                if single:
+                    mk = {aid: v[0] for aid, v in mk.items()}
+                # the second group of a heterogeneous population comes without masks
+                infos = _keyed(IDS, k + 1, lambda aid: {"action_mask": mk[aid]} if aid in mk else {})
             self.stats["ippo_calls"] += 1
             try:
                 a, lp, ent, _ = ag.get_action(obs, infos=infos)
             except Exception as ex:
-                self.fail("IPPO", "get_action", [(_raises(_exc(ex)), _exc(ex))], part[0][0], batch=len(part))
+                self.fail(level, "get_action", [(_raises(_exc(ex)), _exc(ex))], part[0][0], batch=len(part), single=single)
                 continue
-            for j, aid in enumerate(IPPO_IDS):
+            for j, aid in enumerate(IDS):
                 aj, lj, ej = np.asarray(a[aid]), np.asarray(lp[aid]).reshape(-1), np.asarray(ent[aid]).reshape(-1)
                 if aj.shape[0] != E or lj.shape[0] != E or ej.shape[0] != E:
-                    self.fail("IPPO", "get_action", [("Shape", f"{aid}: action {aj.shape}, log_prob {lj.shape}, entropy {ej.shape} for {E} environments")],
+                    self.fail(level, "get_action", [("Shape", f"{aid}: action {aj.shape}, log_prob {lj.shape}, entropy {ej.shape} for {E} environments")],
                               part[0][0])
                     continue
+                if aid not in row_of:
+                    self.fail(level, "other-group", check_other_rows(self.key, aj, lj, ej), part[0][0], agent=aid)
+                    continue
                 for e in range(E):
-                    c = part[ids[j][e]][0]
+                    c = part[row_of[aid][e]][0]
                     self.stats["rows"] += 1
-                    self.fail("IPPO", "sample", check_disc_row(c, aj[e], lj[e], ej[e], "sample"), c, agent=aid, env=e,
+                    self.fail(level, "sample", check_disc_row(c, aj[e], lj[e], ej[e], "sample"), c, agent=aid, env=e,
                               training=training)
         ones = [c for c in cases if all_ones(c)]
-        self._learn_path("IPPO", ag, list(ag.actors), _rows_eval(ones))
+        self._learn_path(level, ag, list(ag.actors)[:1] if hetero else list(ag.actors), _rows_eval(ones), max_calls=(3 if hetero else 6))
 
     # ------------------------------------------------------------------ the evaluation inside learn()
     def _learn_path(self, level, ag, actors, rows, max_calls=6):
         """Roll-outs whose stored actions are chosen by the harness (shape and dtype of what get_action returned);
-        learn() re-evaluates them through actor.action_log_prob, which is observed by a spy."""
+        learn() re-evaluates them through actor.action_log_prob, which is observed by a spy.  The head is stubbed, so the
+        specification's value is demanded in every minibatch of every epoch: the minibatch size, the number of epochs and
+        the vectorised / non-vectorised layout of the roll-out vary from call to call."""
         T, E = 8, 2
-        per_call = T * E * (3 if level == "IPPO" else 1)
+        hetero = level.endswith("hetero")
+        IDS, CIDS = ippo_ids(hetero), case_ids(hetero)
+        n = 1 if level == "PPO" else len(CIDS)
+        per_call = T * E * n
         step = max(1, len(rows) // (per_call * max_calls))
         rows = rows[::step] if len(rows) > per_call * max_calls else rows
         ag.set_training_mode(True)
         for k, part in enumerate(_batches(rows, [per_call])):
             while len(part) < per_call:
                 part = part + part[:per_call - len(part)]
+            kk = k + self.seed
+            ag.batch_size = [64, 6, 7][kk % 3]           # 16 / 32 rows per policy: no minibatch of a single row (learn() skips those)
+            ag.update_epochs = 1 + kk % 2
+            vec = kk % 4 != 1
+            layout = dict(batch_size=ag.batch_size, update_epochs=ag.update_epochs, vectorised=vec)
             tab = self._table(part, k)
             for ac in actors:
                 ac.head_net.wrapped.forward.table = tab
@@ -647,10 +783,10 @@ class DiscKernel:
             try:
                 seed_all(self.seed + 100 + k)
                 if level == "PPO":
-                    exp = ppo_rollout(ag, self.key, part, T, E)
+                    exp = ppo_rollout(ag, self.key, part, T, E, vec=vec)
                 else:
-                    exp = ippo_rollout(ag, self.key, part, T, E)
-                self.stats[level.lower() + "_calls"] += 1
+                    exp = ippo_rollout(ag, self.key, part, T, E, IDS, CIDS, vec=vec, k=kk)
+                self.stats[level.split("-")[0].lower() + "_calls"] += 1
                 ag.learn(exp)
             except Exception as ex:
                 exc = _exc(ex)
@@ -658,8 +794,8 @@ class DiscKernel:
                 for s in spies:
                     s.remove()
             if exc:
-                self.fail(level, "learn", [(_raises(exc), exc)], part[0][0], rows=len(part))
-            seen = 0
+                self.fail(level, "learn", [(_raises(exc), exc)], part[0][0], rows=len(part), **layout)
+            seen = set()
             for s in spies:
                 for rec in s.recs:
                     if rec["out"] is None:
@@ -669,19 +805,19 @@ class DiscKernel:
                     act = np.asarray(rec["action"])
                     if out.shape != (len(ids),) or act.shape[0] != len(ids):
                         self.fail(level, "learn-eval", [("Shape", f"action_log_prob received actions {act.shape} for {len(ids)} observations and returned {out.shape}")],
-                                  part[ids[0]][0])
+                                  part[ids[0]][0], **layout)
                         continue
                     for i, rid in enumerate(ids):
                         c, ea = part[rid]
-                        seen += 1
+                        seen.add(rid)
                         self.stats["rows"] += 1
                         bad = []
                         if action_tuple(act[i]) != tuple(ea):
                             bad.append(("StoredAction", f"row of observation {rid} is evaluated with action {act[i].tolist()}, stored {ea}"))
                         bad += [b for b in check_disc_row(c, act[i], out[i], None, "eval")]
-                        self.fail(level, "learn-eval", bad, c, action=ea)
-            if seen < len(part) and not exc:
-                self.fail(level, "learn-eval", [("Coverage", f"learn() re-evaluated {seen} of {len(part)} stored rows")], part[0][0])
+                        self.fail(level, "learn-eval", bad, c, action=ea, **layout)
+            if len(seen) < len(part) and not exc:
+                self.fail(level, "learn-eval", [("Coverage", f"learn() re-evaluated {len(seen)} of {len(part)} stored rows")], part[0][0], **layout)
 
 
 def _like(template, acts, key):
@@ -693,40 +829,57 @@ def _like(template, acts, key):
     return a.reshape(t.shape).astype(t.dtype)
 
 
-def ppo_rollout(ag, key, part, T, E):
+def ppo_rollout(ag, key, part, T, E, vec=True):
+    """vec=False: the layout train_on_policy stores for a non-vectorised environment (un-batched observations, the first row of
+    what get_action returned, scalar rewards / dones): T * E steps of one environment."""
+    if not vec:
+        T, E = T * E, 1
     ids = np.arange(T * E).reshape(T, E)
     states, actions, logps, rews, dones, vals = [], [], [], [], [], []
     for t in range(T):
-        obs = obs_of(ids[t])
+        obs = obs_of(ids[t]) if vec else obs_of(ids[t])[0]
         a, lp, _, v = ag.get_action(obs)
+        stored = _like(a, [part[i][1] for i in ids[t]], key)
         states.append(obs)
-        actions.append(_like(a, [part[i][1] for i in ids[t]], key))
-        logps.append(np.asarray(lp))
-        rews.append(np.ones((E,), np.float32))
-        dones.append(np.zeros((E,), np.float32))
-        vals.append(np.asarray(v))
-    return (states, actions, logps, rews, dones, vals, obs_of(ids[0]), np.zeros((E,), np.float32))
+        actions.append(stored if vec else stored[0])
+        logps.append(np.asarray(lp) if vec else np.asarray(lp)[0])
+        rews.append(np.ones((E,), np.float32) if vec else np.float32(1.0))
+        dones.append(np.zeros((E,), np.float32) if vec else np.float32(0.0))
+        vals.append(np.asarray(v) if vec else np.asarray(v)[0])
+    if vec:
+        return (states, actions, logps, rews, dones, vals, obs_of(ids[0]), np.zeros((E,), np.float32))
+    return (states, actions, logps, rews, dones, vals, obs_of(ids[0])[0], np.float32(0.0))
 
 
-def ippo_rollout(ag, key, part, T, E):
-    ids = np.arange(3 * T * E).reshape(3, T, E)
-    exp = [dict() for _ in range(8)]
-    for j, aid in enumerate(IPPO_IDS):
-        for x in exp[:6]:
-            x[aid] = []
+def ippo_rollout(ag, key, part, T, E, IDS=None, CIDS=None, vec=True, k=0):
+    """Every component of the experience tuple is a dictionary filled in another key order.  vec=False: the layout
+    train_multi_agent_on_policy stores for a non-vectorised environment."""
+    IDS = list(IDS or IPPO_IDS)
+    CIDS = list(CIDS or IDS)
+    if not vec:
+        T, E = T * E, 1
+    n = len(CIDS)
+    ids = np.arange(n * T * E).reshape(n, T, E)
+    row_of = {aid: ids[j] for j, aid in enumerate(CIDS)}
+    exp = [_keyed(IDS, k + c, lambda aid: []) for c in range(6)] + [dict(), dict()]
+
+    def obs_at(aid, t):
+        o = obs_of(row_of[aid][t]) if aid in row_of else obs_of(range(E))
+        return o if vec else o[0]
+
     for t in range(T):
-        obs = {aid: obs_of(ids[j][t]) for j, aid in enumerate(IPPO_IDS)}
+        obs = _keyed(IDS, k + t, lambda aid: obs_at(aid, t))
         a, lp, _, v = ag.get_action(obs)
-        for j, aid in enumerate(IPPO_IDS):
+        for aid in IDS:
+            stored = _like(a[aid], [part[i][1] for i in row_of[aid][t]], key) if aid in row_of else np.asarray(a[aid])
             exp[0][aid].append(obs[aid])
-            exp[1][aid].append(_like(a[aid], [part[i][1] for i in ids[j][t]], key))
-            exp[2][aid].append(np.asarray(lp[aid]))
-            exp[3][aid].append(np.ones((E,), np.float32))
+            exp[1][aid].append(stored if vec else stored[0])
+            exp[2][aid].append(np.asarray(lp[aid]) if vec else np.asarray(lp[aid])[0])
+            exp[3][aid].append(np.ones((E,), np.float32) if vec else 1.0)
             exp[4][aid].append(np.zeros((E,), np.float32))
-            exp[5][aid].append(np.asarray(v[aid]))
-    for j, aid in enumerate(IPPO_IDS):
-        exp[6][aid] = obs_of(ids[j][0])
-        exp[7][aid] = np.zeros((E,), np.int8)
+            exp[5][aid].append(np.asarray(v[aid]) if vec else np.asarray(v[aid])[0])
+    exp[6] = _keyed(IDS, k + 6, lambda aid: obs_at(aid, 0))
+    exp[7] = _keyed(IDS, k + 7, lambda aid: np.zeros((E,), np.int8))
     return tuple(exp)
 
 
@@ -742,6 +895,8 @@ class BoxKernel:
         self.stats = {"actor_calls": 0, "ppo_calls": 0, "ippo_calls": 0, "rows": 0}
 
     def fail(self, level, path, bad, c, **extra):
+        if self.evolved:
+            extra["evolve"] = "cloned" if self.evolved == "cloned" else "mutated"
         for clause, detail in bad:
             self.fails.append(Failure(level, self.shape, path, clause, detail, c, extra))
 
@@ -860,48 +1015,64 @@ class BoxKernel:
                         continue
                     self.fail("PPO", "eval", check_box_row(c, stored[i], lp2[i], None, u_want=box_point(c), qn=c["qn"], squash=self.squash,
                                                            path="eval"), c, batch=len(part), row=i)
-            self._learn_path("PPO", ag, [ag.actor], ks, cs)
+            self._learn_path("PPO", ag, [ag.actor], ks, cs, kidx=sum(abs(x) for x in ks) + len(ks))
 
-    def run_ippo(self, cases):
-        ag = _ev(make_ippo(self.key, squash=self.squash, seed=self.seed), self)
+    def run_ippo(self, cases, hetero=False):
+        ag = _ev(make_ippo(self.key, squash=self.squash, seed=self.seed, hetero=hetero), self)
+        level = "IPPO-hetero" if hetero else "IPPO"
+        IDS, CIDS = ippo_ids(hetero), case_ids(hetero)
+        n = len(CIDS)
         heads = []
         for ac in ag.actors:
             h = Head()
             instrument(ac, h)
             heads.append(h)
+        case_actors = list(ag.actors)[:1] if hetero else list(ag.actors)
+        case_heads = heads[:1] if hetero else heads
+        if hetero:
+            heads[1].table = torch.zeros((64, spaces.flatdim(other_space(self.key))), dtype=torch.float32)
         for ks, cs in sorted(self.groups(cases).items()):
-            for k, part in enumerate(_batches(cs, [12, 3, 24], self.seed)):
-                part = _pad3(part)
-                E = len(part) // 3
+            for k, part in enumerate(_batches(cs, [4 * n, n, 8 * n], self.seed)):
+                part = _padn(part, n)
+                E = len(part) // n
                 ag.set_training_mode(True)
-                pts = self._set(list(ag.actors), heads, ks, part, rot=1 + k % 3)
-                ids = np.arange(len(part)).reshape(3, E)
-                obs = {aid: obs_of(ids[j]) for j, aid in enumerate(IPPO_IDS)}
+                pts = self._set(case_actors, case_heads, ks, part, rot=1 + k % 3)
+                ids = np.arange(len(part)).reshape(n, E)
+                row_of = {aid: ids[j] for j, aid in enumerate(CIDS)}
+                obs = _keyed(IDS, k, lambda aid: obs_of(row_of[aid]) if aid in row_of else obs_of(range(E)))
                 self.stats["ippo_calls"] += 1
                 try:
                     with mock.patch.object(torch, "normal", scripted_normal):
                         a, lp, ent, _ = ag.get_action(obs)
                 except Exception as ex:
-                    self.fail("IPPO", "get_action", [(_raises(_exc(ex)), _exc(ex))], part[0], batch=len(part))
+                    self.fail(level, "get_action", [(_raises(_exc(ex)), _exc(ex))], part[0], batch=len(part))
                     continue
-                for j, aid in enumerate(IPPO_IDS):
+                for aid in IDS:
                     aj, lj = np.asarray(a[aid]), np.asarray(lp[aid]).reshape(-1)
                     if aj.shape[0] != E or lj.shape[0] != E:
-                        self.fail("IPPO", "get_action", [("Shape", f"{aid}: action {aj.shape}, log_prob {lj.shape} for {E} environments")], part[0])
+                        self.fail(level, "get_action", [("Shape", f"{aid}: action {aj.shape}, log_prob {lj.shape} for {E} environments")], part[0])
                         continue
                     ej = np.asarray(ent[aid]).reshape(-1)
+                    if aid not in row_of:
+                        self.fail(level, "other-group", check_other_rows(self.key, aj, lj, ej) if ej.shape[0] == E else
+                                  [("Shape", f"{aid}: entropy {ej.shape} for {E} environments")], part[0], agent=aid)
+                        continue
                     for e in range(E):
-                        r = ids[j][e]
+                        r = row_of[aid][e]
                         c = part[r]
                         self.stats["rows"] += 1
-                        self.fail("IPPO", "sample", check_box_row(c, aj[e], lj[e], (ej[e] if not self.squash and ej.size == E else None),
+                        self.fail(level, "sample", check_box_row(c, aj[e], lj[e], (ej[e] if not self.squash and ej.size == E else None),
                                                                   u_want=pts[r][0], qn=pts[r][1], squash=self.squash, path="sample"),
                                   c, agent=aid, env=e)
-            self._learn_path("IPPO", ag, list(ag.actors), ks, cs)
+            self._learn_path(level, ag, case_actors, ks, cs, kidx=sum(abs(x) for x in ks) + len(ks))
 
-    def _learn_path(self, level, ag, actors, ks, cs):
+    def _learn_path(self, level, ag, actors, ks, cs, kidx=0):
+        """The first minibatch of learn() is evaluated under the grid's log_std (later ones after the optimizer has moved it):
+        the roll-out layout (vectorised or not) and the minibatch size vary with the log_std group."""
         T, E = 8, 2
-        per_call = T * E * (3 if level == "IPPO" else 1)
+        hetero = level.endswith("hetero")
+        IDS, CIDS = ippo_ids(hetero), case_ids(hetero)
+        per_call = T * E * (1 if level == "PPO" else len(CIDS))
         cs = self._eligible(cs)
         if not cs:
             return
@@ -910,13 +1081,18 @@ class BoxKernel:
         self._set(actors, heads, ks, part, rot=1)
         rows = [(c, (np.tanh(box_point(c)) if self.squash else np.asarray(box_point(c))).astype(np.float32).tolist()) for c in part]
         ag.set_training_mode(True)
+        kk = kidx + self.seed
+        ag.batch_size = [64, 6, 7][kk % 3]
+        vec = kk % 4 != 1
+        layout = dict(batch_size=ag.batch_size, vectorised=vec)
         spies = [LogProbSpy(ac, tag=str(j)) for j, ac in enumerate(actors)]
         exc = ""
         try:
             seed_all(self.seed + 200)
             with mock.patch.object(torch, "normal", scripted_normal):
-                exp = ppo_rollout(ag, self.key, rows, T, E) if level == "PPO" else ippo_rollout(ag, self.key, rows, T, E)
-                self.stats[level.lower() + "_calls"] += 1
+                exp = (ppo_rollout(ag, self.key, rows, T, E, vec=vec) if level == "PPO" else
+                       ippo_rollout(ag, self.key, rows, T, E, IDS, CIDS, vec=vec, k=kk))
+                self.stats[level.split("-")[0].lower() + "_calls"] += 1
                 ag.learn(exp)
         except Exception as ex:
             exc = _exc(ex)
@@ -924,7 +1100,7 @@ class BoxKernel:
             for s in spies:
                 s.remove()
         if exc:
-            self.fail(level, "learn", [(_raises(exc), exc)], part[0], rows=len(part))
+            self.fail(level, "learn", [(_raises(exc), exc)], part[0], rows=len(part), **layout)
         seen = 0
         for s in spies:
             for rec in s.recs:
@@ -938,7 +1114,7 @@ class BoxKernel:
                     continue            # a later minibatch: log_std has been moved by the optimizer, not on the grid any more
                 if out.shape != (len(ids),) or act.reshape(len(act), -1).shape != (len(ids), self.d):
                     self.fail(level, "learn-eval", [("Shape", f"action_log_prob received actions {tuple(act.shape)} for {len(ids)} observations of a "
-                                                              f"Box({self.d},) policy and returned {tuple(out.shape)}")], part[ids[0]])
+                                                              f"Box({self.d},) policy and returned {tuple(out.shape)}")], part[ids[0]], **layout)
                     seen += len(ids)
                     continue
                 for i, rid in enumerate(ids):
@@ -949,9 +1125,11 @@ class BoxKernel:
                     if not np.array_equal(act[i].reshape(-1), np.asarray(ea, dtype=np.float32)):
                         bad.append(("StoredAction", f"row of observation {rid} is evaluated with action {act[i].tolist()}, stored {ea}"))
                     bad += check_box_row(c, act[i], out[i], None, u_want=box_point(c), qn=c["qn"], squash=self.squash, path="eval")
-                    self.fail(level, "learn-eval", bad, c, action=ea)
-        if seen < len(part) and not exc:
-            self.fail(level, "learn-eval", [("Coverage", f"learn() re-evaluated {seen} of {len(part)} stored rows on the first minibatch")], part[0])
+                    self.fail(level, "learn-eval", bad, c, action=ea, **layout)
+        want_seen = min(ag.batch_size, len(part) // max(1, len(actors))) * len(actors)
+        if seen < want_seen and not exc:
+            self.fail(level, "learn-eval", [("Coverage", f"learn() re-evaluated {seen} stored rows on the first minibatch of each policy, "
+                                                         f"{want_seen} expected")], part[0], **layout)
 
 
 # ======================================================================================= history traces
@@ -1108,11 +1286,14 @@ def _spy_rows(h, spies, via):
 def history_ppo(key, squash, bounds, seed, batch_size):
     """PPO: get_action (Sample), evaluate_actions on stored pairs (Eval), learn on the stored roll-out (Eval through the spy,
     Learn when the optimizer moves the weights)."""
-    ag = make_ppo(key, squash=squash, bounds=bounds, seed=seed, batch_size=batch_size, std_init=(-1.0 if squash else 0.0))
+    # batch size 4: the networks are handed over ready-made and (Box) a non-zero action_std_init goes through the constructors
+    explicit = batch_size == 4
+    std_init = -1.0 if squash else (0.5 if explicit and key[0] == "box" else 0.0)
+    ag = make_ppo(key, squash=squash, bounds=bounds, seed=seed, batch_size=batch_size, std_init=std_init, explicit=explicit)
     instrument(ag.actor)
     ag.set_training_mode(True)
     h = History({"level": "PPO", "shape": shape_name(key, squash, bounds), "squash": int(squash), "seed": seed, "batch_size": batch_size,
-                 "bounds": bounds}, squash)
+                 "bounds": bounds, "explicit_networks": int(explicit), "action_std_init": std_init}, squash)
     T, E = 4, 2
     seed_all(seed + 6)
     roll = []
@@ -1163,7 +1344,9 @@ def history_ppo(key, squash, bounds, seed, batch_size):
 
 
 def history_ippo(key, squash, bounds, seed, batch_size):
-    ag = make_ippo(key, squash=squash, bounds=bounds, seed=seed, batch_size=batch_size, std_init=(-1.0 if squash else 0.0))
+    explicit = batch_size == 4
+    std_init = -1.0 if squash else (0.5 if explicit and key[0] == "box" else 0.0)
+    ag = make_ippo(key, squash=squash, bounds=bounds, seed=seed, batch_size=batch_size, std_init=std_init, explicit=explicit)
     for ac in ag.actors:
         instrument(ac)
     ag.set_training_mode(True)
@@ -1174,13 +1357,11 @@ def history_ippo(key, squash, bounds, seed, batch_size):
     group = {"agent_0": 0, "agent_1": 0, "other_0": 1}
     seed_all(seed + 7)
     try:
-        exp = [dict() for _ in range(8)]
-        for aid in IPPO_IDS:
-            for x in exp[:6]:
-                x[aid] = []
+        # every dictionary is filled in another key order
+        exp = [_keyed(IPPO_IDS, seed + c, lambda aid: []) for c in range(6)] + [dict(), dict()]
         for t in range(T):
             ids = {aid: [100 * (j + 1) + t * E + e + 1 for e in range(E)] for j, aid in enumerate(IPPO_IDS)}
-            obs = {aid: hs[group[aid]].obs(ids[aid]) for aid in IPPO_IDS}
+            obs = _keyed(IPPO_IDS, seed + t, lambda aid: hs[group[aid]].obs(ids[aid]))
             a, lp, _, v = ag.get_action(obs)
             for aid in IPPO_IDS:
                 hh = hs[group[aid]]
@@ -1197,9 +1378,8 @@ def history_ippo(key, squash, bounds, seed, batch_size):
                 exp[3][aid].append(np.ones((E,), np.float32))
                 exp[4][aid].append(np.zeros((E,), np.float32))
                 exp[5][aid].append(v[aid])
-        for j, aid in enumerate(IPPO_IDS):
-            exp[6][aid] = hs[group[aid]].obs([900 + j, 950 + j])
-            exp[7][aid] = np.zeros((E,), np.int8)
+        exp[6] = _keyed(IPPO_IDS, seed + 6, lambda aid: hs[group[aid]].obs([900 + IPPO_IDS.index(aid), 950 + IPPO_IDS.index(aid)]))
+        exp[7] = _keyed(IPPO_IDS, seed + 7, lambda aid: np.zeros((E,), np.int8))
         spies = [LogProbSpy(ac) for ac in ag.actors]
         try:
             ag.learn(tuple(exp))
